@@ -38,7 +38,7 @@ namespace vu::pos
    {
       return matches< Input, I::eol, I::eolf, any, I::everything< std::size_t >, one< 'a' >, one< '\n' >, one< '\r', 'x' >, not_one< 'a' >, not_one< '\n', '\r' >, not_one< '\n' >, not_one< '\r' >,
                       range< 'a', 'z' >, range< '\t', '\r' >, not_range< 'a', 'z' >, not_range< '\0', ' ' >, ranges< 'a', 'z', '\n' >, ranges< 'a', 'z', '0', '9' >, ranges< '\t', '\r', 'x' >,
-                      string< 'a', 'b' >, string< 'a', '\n', 'b' >, string< '\r', '\n' >, string< '\r' >, istring< 'a', 'B' >, istring< 'a', '\n' >, istring< '\r', 'x' >, bytes< 3 >, bytes< 1 >,
+                      string< 'a', 'b' >, string< 'a', '\n', 'b' >, string< '\r', '\n' >, string< '\r' >, string< 'a', '\0', 'b' >, istring< 'a', '\0', 'B' >, istring< 'a', 'B' >, istring< 'a', '\n' >, istring< '\r', 'x' >, bytes< 3 >, bytes< 1 >,
                       rep_one_min_max< 1, 3, 'x' >, rep_one_min_max< 0, 2, 'x' >, rep_one_min_max< 1, 3, '\n' >, rep_one_min_max< 0, 2, '\r' >, rep_one_min_max< 2, 2, '\n' >,
                       I::predicates< I::predicates_and_test, I::peek_char, range< 'a', 'z' >, not_one< 'q' > >, I::predicates< I::predicate_not_test, I::peek_char, one< 'a' > >,
                       I::predicates< I::predicates_or_test, I::peek_char, one< '\n' >, one< 'a' > >, I::predicates< I::predicate_not_test, I::peek_char, one< '\n', '\r' > >,
